@@ -195,15 +195,14 @@ func c05RulesMatch(got []*proto.Rule, want []model.Rule) string {
 	return ""
 }
 
-// c05CheckProfiles returns "" or the first discrepancy; absentRef reports whether some local
-// endpoint referenced a profile without valid rules (the non-trivial situation).
-func c05CheckProfiles(st *c03Store, fold *c03Fold) (msg string, absentRef bool) {
+// c05CheckProfiles returns "" or the first discrepancy; standIn maps every profile referenced by
+// a local endpoint to whether it must currently be the deny-all stand-in (no valid rules).
+func c05CheckProfiles(st *c03Store, fold *c03Fold) (msg string, standIn map[string]bool) {
+	standIn = map[string]bool{}
 	check := func(ep string, ids []string) string {
 		for _, id := range ids {
 			rules, known := st.profRules[id]
-			if !known {
-				absentRef = true
-			}
+			standIn[id] = !known
 			prof, ok := fold.profs[id]
 			if !ok {
 				return fmt.Sprintf("%s references profile %q but no ActiveProfileUpdate for it is in effect", ep, id)
@@ -226,18 +225,18 @@ func c05CheckProfiles(st *c03Store, fold *c03Fold) (msg string, absentRef bool) 
 	for _, k := range c03WepKeys {
 		if ep, ok := st.weps[k]; ok && k.Hostname == c03LocalHost {
 			if m := check("workload endpoint "+c03WepIDOfKey(k), ep.ProfileIDs); m != "" {
-				return m, absentRef
+				return m, standIn
 			}
 		}
 	}
 	for _, k := range c03HepKeys {
 		if ep, ok := st.heps[k]; ok && k.Hostname == c03LocalHost {
 			if m := check("host endpoint "+k.EndpointID, ep.ProfileIDs); m != "" {
-				return m, absentRef
+				return m, standIn
 			}
 		}
 	}
-	return "", absentRef
+	return "", standIn
 }
 
 // ---------------------------------------------------------------------------------------------
@@ -250,6 +249,10 @@ type c05Run struct {
 	rec       *ev.Recorder
 	checks    int
 	absentRef bool
+	// transitions of a referenced profile between two consecutive checked flushes
+	lastStandIn   map[string]bool
+	standInToReal bool
+	realToStandIn bool
 }
 
 func c05NewRun(t *rapid.T, rec *ev.Recorder) *c05Run {
@@ -290,13 +293,23 @@ func (r *c05Run) flushAndCheck() {
 		return
 	}
 	r.checks++
-	msg, absent := c05CheckProfiles(r.h.valid, r.a.fold)
+	msg, standIn := c05CheckProfiles(r.h.valid, r.a.fold)
 	if msg != "" {
 		fail("i: missing/invalid profile must be deny-all, valid profile must be in effect", msg)
 	}
-	if absent {
-		r.absentRef = true
+	for id, si := range standIn {
+		if si {
+			r.absentRef = true
+		}
+		if was, seen := r.lastStandIn[id]; seen && was != si {
+			if si {
+				r.realToStandIn = true
+			} else {
+				r.standInToReal = true
+			}
+		}
 	}
+	r.lastStandIn = standIn
 }
 
 func (r *c05Run) finish() {
@@ -307,6 +320,12 @@ func (r *c05Run) finish() {
 	}
 	if r.h.invalidAfterValid {
 		classes = append(classes, "invalid-after-valid")
+	}
+	if r.standInToReal {
+		classes = append(classes, "stand-in-replaced-by-real-rules")
+	}
+	if r.realToStandIn {
+		classes = append(classes, "real-rules-replaced-by-stand-in")
 	}
 	if r.h.nInvalid > 0 {
 		classes = append(classes, "has-invalid")
